@@ -5,6 +5,7 @@ C20 driver: parses the case lines the harness executes (harness/c20/c20.c, harne
 Case lines:
   pol cf <dir> <spec>              creator_file answer for /c20/<dir>/...
   pol vs <oid|*> <uid|*|-> <spec>  valid_seteuid answer (`-` = empty uid)
+  script <name> <op>;<op>..|-      ops run by create() of the object with that file name (<path> / <path>#)
   do <oid> <op>                    op: seteuid,s:<name> | seteuid,i:<n> | export,<oid> | load,<path> |
                                        clone,<newoid>,<path> | dest,<oid> | reload,<oid>
   spec: s:<text> | i:<n> | arr | err | none
@@ -19,6 +20,8 @@ namespace NV.C20
 open NV.Proto
 
 def driveCfg : Cfg := { root := "Root", bb := some "Backbone" }
+/-- nesting bound of the executable model; the generators stay far below it -/
+def driveFuel : Nat := 24
 
 /-! rendering -/
 
@@ -79,7 +82,7 @@ def renderCreations : List Creation → List String × Bool
         (cfl ++ ["new " ++ m.oid ++ " " ++ m.name ++ " " ++ us m.uid ++ " " ++ us m.euid] ++ l, cr)
 
 def StepRec.render (r : StepRec) : List String :=
-  let head := ["do " ++ r.actor ++ " " ++ r.op.render]
+  let head := if r.first then ["do " ++ r.actor ++ " " ++ r.op.render] else []
   let vsl := match r.vs with
     | some (o, u, a) => ["vs " ++ o ++ " s:" ++ u ++ " " ++ a.render]
     | none => []
@@ -128,6 +131,7 @@ structure Tables where
   cf : List (String × Ans) :=
     [("u1", .str "u1"), ("u2", .str "u2"), ("bb", .str "Backbone"), ("root", .str "Root"), ("odd", .int 0)]
   vs : List (String × Ans) := []
+  scripts : List (String × List Op) := []
 
 def lookupS (l : List (String × Ans)) (k : String) : Option Ans :=
   (l.find? (fun e => e.1 == k)).map (·.2)
@@ -157,6 +161,12 @@ def parseLine (p : Parsed) (line : String) : Parsed :=
   match toks line with
   | [] => p
   | ["load", "reg", "/c20/reg"] => p
+  | ["script", key, ops] =>
+    if ops == "-" then { p with tab := { p.tab with scripts := (key, []) :: p.tab.scripts } }
+    else
+      let parsed := (ops.splitOn ";").map (fun o => (parseOp o).filter (fun op => op.render == o))
+      if parsed.all Option.isSome then { p with tab := { p.tab with scripts := (key, parsed.filterMap id) :: p.tab.scripts } }
+      else { p with bad := line :: p.bad }
   | ["pol", "cf", d, spec] =>
     match parseAns spec with
     | some a => { p with tab := { p.tab with cf := (d, a) :: p.tab.cf } }
@@ -183,14 +193,19 @@ def policyOf (steps : List ((Oid × Op) × Tables)) : Policy :=
       | none => .str "Root",
     vs := fun i o u => match arr[i]? with
       | some e => e.2.vsAns o u
-      | none => .int 1 }
+      | none => .int 1,
+    script := fun i key => match arr[i]? with
+      | some e => ((e.2.scripts.find? (fun x => x.1 == key)).map (·.2)).getD []
+      | none => [] }
 
 def runModel (lines : List String) : List String :=
   let p := parseCase lines
   if !p.bad.isEmpty then p.bad.reverse.map (fun l => s!"bad-line {l}")
   else
-    let trace := events driveCfg (policyOf p.steps) (p.steps.map (·.1))
-    trace.flatMap StepRec.render
+    let trace := events driveCfg (policyOf p.steps) driveFuel (p.steps.map (·.1))
+    -- the real driver is dead after a crash: nothing is printed after the first crashing segment
+    let upto := trace.takeWhile (fun r => !r.crash) ++ (trace.dropWhile (fun r => !r.crash)).take 1
+    upto.flatMap StepRec.render
 
 /-! parsing of an implementation trace into step records -/
 
@@ -222,12 +237,22 @@ def parseSnapEntry (s : String) : Option Obj :=
   | _ => none
 
 structure JParse where
-  done : List StepRec := []            -- newest first
-  cur : Option StepRec := none
+  done : List StepRec := []            -- closed segments, newest first
+  stack : List (Oid × Op) := []        -- running ops, innermost first
+  cur : Option StepRec := none         -- open segment
   bad : List String := []
 
-def JParse.upd (j : JParse) (line : String) (f : StepRec → Option StepRec) : JParse :=
+/-- the open segment; a line arriving with no open segment continues the innermost running op -/
+def JParse.open (j : JParse) : Option StepRec :=
   match j.cur with
+  | some r => some r
+  | none =>
+    match j.stack with
+    | (a, op) :: _ => some { actor := a, op := op, first := false }
+    | [] => none
+
+def JParse.upd (j : JParse) (line : String) (f : StepRec → Option StepRec) : JParse :=
+  match j.open with
   | none => { j with bad := line :: j.bad }
   | some r =>
     match f r with
@@ -246,12 +271,9 @@ def jline (j : JParse) (line : String) : JParse :=
   match toks line with
   | [] => j
   | ["do", o, ops] =>
-    let j := match j.cur with
-      | some r => { j with done := r :: j.done, cur := none }
-      | none => j
-    match parseOp ops with
-    | some op => { j with cur := some { actor := o, op := op } }
-    | none => { j with bad := line :: j.bad }
+    match parseOp ops, j.cur with
+    | some op, none => { j with stack := (o, op) :: j.stack, cur := some { actor := o, op := op } }
+    | _, _ => { j with bad := line :: j.bad }
   | ["vs", o, u, spec] =>
     j.upd line fun r =>
       match parseU u, parseAns spec with
@@ -268,13 +290,18 @@ def jline (j : JParse) (line : String) : JParse :=
   | "r" :: ws =>
     j.upd line fun r => if r.res.isSome then none else (parseRes ws).map fun x => { r with res := some x }
   | "q" :: es =>
-    j.upd line fun r =>
-      let ps := es.map parseSnapEntry
-      if ps.all Option.isSome ∧ r.snap.isNone then some { r with snap := some (ps.filterMap id) } else none
+    let ps := es.map parseSnapEntry
+    match j.open with
+    | some r =>
+      if ps.all Option.isSome then
+        { j with done := { r with snap := some (ps.filterMap id) } :: j.done, cur := none,
+                 stack := if r.res.isSome then j.stack.drop 1 else j.stack }
+      else { j with bad := line :: j.bad }
+    | none => { j with bad := line :: j.bad }
   | "crash" :: _ =>
-    match j.cur with
-    | some r => { j with cur := some { r with crash := true } }
-    | none => { j with cur := some { actor := "?", op := .dest "?", crash := true } }
+    match j.open with
+    | some r => { j with done := { r with crash := true } :: j.done, cur := none }
+    | none => { j with done := { actor := "?", op := .dest "?", crash := true } :: j.done }
   | "sanitizer" :: _ => j
   | _ => { j with bad := line :: j.bad }
 
@@ -283,7 +310,7 @@ def parseTrace (lines : List String) : List StepRec × List String :=
   let done := match j.cur with
     | some r => r :: j.done
     | none => j.done
-  (done.reverse, j.bad.reverse)
+  (done.reverse, j.bad.reverse ++ (if j.cur.isSome then ["segment without snapshot"] else []))
 
 def runJudge (body : List String) : List String :=
   let (_input, impl) := splitJudge body
